@@ -71,6 +71,7 @@ type replayJob struct {
 	Vector   []uint64 `json:"vector"`
 	Label    string   `json:"label,omitempty"`
 	Known    []string `json:"known"`
+	Decisions []uint64 `json:"decisions,omitempty"` // schedule-dependent counterexamples: the full decision vector
 	Observes []string `json:"observes,omitempty"`
 	Property string   `json:"property,omitempty"`
 	What     string   `json:"what,omitempty"`
@@ -200,6 +201,36 @@ func main() {
 		if d := os.Getenv("VERIF_REPO"); d != "" {
 			repoDir = d
 		}
+		if len(j.Decisions) > 0 {
+			// schedule-dependent counterexample: re-execute the recorded decision vector on the real code's SSA
+			g, err := LoadEngine(repoDir, filepath.Join(verifDir, "harness"))
+			if err != nil {
+				fmt.Println("cannot load the tree:", err)
+				os.Exit(2)
+			}
+			g.known = loadKnown()
+			g.tier = j.Tier
+			for _, c := range allChecks() {
+				for _, h := range c.Harnesses {
+					if h.Fn == j.Harness {
+						cfg := defaultCfg()
+						if h.Cfg != nil {
+							h.Cfg(&cfg, j.Tier)
+						}
+						ok, how := g.ReplaySchedule(j.Harness, cfg, j.Decisions, j.Label)
+						fmt.Printf("harness=%s label=%q schedule re-executed on the SSA of the current tree: reproduced=%v (%s)\n", j.Harness, j.Label, ok, how)
+						if ok {
+							fmt.Printf("VIOLATION property=%s replay=%s\n", j.Property, os.Args[2])
+							os.Exit(1)
+						}
+						fmt.Println("not reproduced on this tree")
+						os.Exit(0)
+					}
+				}
+			}
+			fmt.Println("harness not registered")
+			os.Exit(2)
+		}
 		res, out, err := runNative(repoDir, filepath.Join(verifDir, "harness"), []replayJob{j})
 		if err != nil {
 			fmt.Println("replay failed to run:", err, out)
@@ -267,8 +298,10 @@ func runCheck(id, tier string, verbose bool, only string, workers int, noval boo
 	var results []*HarnessResult
 	var problems []string
 	type viol struct {
-		h   *HarnessSpec
-		out *AssertOutcome
+		h     *HarnessSpec
+		out   *AssertOutcome
+		trace []uint64
+		cfg   HarnessCfg
 	}
 	var viols []viol
 	knownSeen := map[string]bool{}
@@ -309,6 +342,9 @@ func runCheck(id, tier string, verbose bool, only string, workers int, noval boo
 			}
 		}
 		for _, k := range []string{"UNSUPPORTED", "UNWIND", "DEADLOCK"} {
+			if k == "DEADLOCK" && cfg.GoPolicy == "explore" {
+				continue // reported as a no-deadlock violation
+			}
 			if r.Ends[k] > 0 {
 				problems = append(problems, fmt.Sprintf("%s: %d paths ended %s (engine limit: no verdict for them)", h.Fn, r.Ends[k], k))
 			}
@@ -333,7 +369,7 @@ func runCheck(id, tier string, verbose bool, only string, workers int, noval boo
 		}
 		sort.Strings(labels)
 		for _, l := range labels {
-			viols = append(viols, viol{h, r.Violations[l]})
+			viols = append(viols, viol{h, r.Violations[l], r.ViolTrace[l], cfg})
 		}
 		for kid := range r.Knowns {
 			knownSeen[kid] = true
@@ -407,7 +443,13 @@ func runCheck(id, tier string, verbose bool, only string, workers int, noval boo
 		j := jobs[i]
 		confirmed := false
 		why := "native replay not run"
-		if nativeRes != nil {
+		if viols[i].cfg.GoPolicy == "explore" {
+			// schedule-dependent: a native run cannot force the schedule; the
+			// recorded decision vector is re-executed on the SSA of the real code
+			ok, how := g.ReplaySchedule(j.Harness, viols[i].cfg, viols[i].trace, j.Label)
+			confirmed, why = ok, "schedule re-executed on the real code's SSA: "+how
+			j.Decisions = viols[i].trace
+		} else if nativeRes != nil {
 			r, ok := nativeRes[j.ID]
 			if ok {
 				why = fmt.Sprintf("native end=%s fails=%v", r.End, r.Fails)
